@@ -1,11 +1,12 @@
 # C04 -- selecting / replicating / joining / generating views (index-function level)
 META = dict(
     level='proof',
-    level_text='For tile, repeat (scalar repeats), roll, pad, concatenate, take, resize, expand (shape), diagonal, tril, triu, eye and tri the '
+    level_text='For tile, repeat (scalar repeats and per-element repeats given as an index array, integer axis), roll, pad, concatenate, take, resize, expand (shape), diagonal, tril, triu, eye and tri the '
                'shape function and the index function the view calls (instantiated for utl::static_vector<size_t,8>, rank 0..8 symbolic, '
                'int axis / shift / offset / k) are proved by CBMC code contracts to return NumPy\'s resp. the documented shape and, for every '
                'destination index inside that shape, the designated source index, which lies inside the source shape (or Nothing exactly '
-               'for fill positions). Every code loop is closed by a loop contract; products, quotients and remainders are uninterpreted '
+               'for fill positions). Every code loop is closed by a loop contract (per-element repeat: index::sum, index::cumsum, index::where and the axis loop of index::repeat; '
+               'an additional bounded unit repeat_each.bounded re-checks the same contract with all loops unwound on rank <= 4, len(repeats) <= 5, so that a recoded search along the axis is still examined); products, quotients and remainders are uninterpreted '
                'with sound axioms where a value equality needs them; the roll formula is tied to the mathematical modulo by a Lean lemma. '
                'Ten genuine defects (roll shift magnitude, negative axes in concatenate/repeat/take, negative take entries, resize float '
                'round trip, diagonal with negative / excessive offset) are recorded as region findings and excluded; the contract holds on the complement.',
@@ -22,7 +23,8 @@ META = dict(
     assumptions=[
         'UF mode: unsigned long * / % are uninterpreted functions constrained by the axioms in models/prelude.h; int % is uninterpreted with the axioms in spec/c04.h (MOD_i); each axiom is a theorem of machine arithmetic',
         'arithmetic facts assumed as precondition instances (theorems, evaluated natively on every replay): r != 0 && a < s*r ==> a/r < s (repeat); i < d && s >= 1 && s*i fits ==> s*i/d < s (resize)',
-        'ghost arrays (EST, ETI, PIN, PEX, CEQ, CSH, CBX, CCP, RSH, RPX, TSH, TKX, RZP, RZQ, XSH, DSH, DIX) are functional definitions assumed in the precondition',
+        'ghost arrays (EST, ETI, PIN, PEX, CEQ, CSH, CBX, CCP, RSH, RPX, RCS, RJ, TSH, TKX, RZP, RZQ, XSH, DSH, DIX) are functional definitions assumed in the precondition',
+        'per-element repeats: len(repeats) == shape[axis] (NumPy raises ValueError otherwise; nmtools_assert in shape_repeat, compiled out under -DNDEBUG: argument validation is not claimed), every entry <= 2^60 so that the sum of the at most 8 entries does not wrap; entries equal to 0 are allowed',
         'destination indices lie inside the view shape, arguments are those the shape function accepts (valid axis -ndim <= axis < ndim, valid take entries -n <= e < n, compatible concatenate shapes)',
         'magnitudes: extents / pad widths <= 2^61 (pad, concatenate, take); rolled extent <= 2^30 and diagonal / tril / triu / eye / tri extents and |k| <= 2^30 (nm_index_t = int arithmetic of the code); resize extents < 2^32 (src*idx fits 64 bits); extent products of tile / repeat / expand are machine products (no overflow claim)',
         'out-of-range integer conversions wrap (implementation-defined in C++17, modular on gcc/clang/msvc, defined in C++20): conversion check disabled in nmtools::at, normalize_axis, index::tile, shape_tile lambda, normalize_roll_index (contracts/c04.spec @modular_conversions)',
@@ -33,7 +35,7 @@ META = dict(
         'stack/hstack/vstack/dstack/column_stack as compositions of expand_dims/concatenate/reshape (only the helpers hstack_axis and shape_vstack and the concatenate stage are under contract)',
         'index::expand source-index function (returns nmtools_either = std::variant: no C model); only shape_expand is covered',
         'split (view::detail::split_args returns nested std::vector for run-time shapes), compress (nonzero/where), sliding_window, diagflat, arange_shape, linspace_shape (std::vector result)',
-        'repeat with per-element repeats or axis=None, concatenate with axis=None, take with axis=None',
+        'repeat with axis=None (scalar repeats; NumPy allows per-element repeats there too, nmtools does not), per-element repeats in other containers than utl::static_vector<size_t,8> (std::array, std::vector, compile-time lists), rejection of len(repeats) != shape[axis] (assertion only); concatenate with axis=None, take with axis=None',
         'roll with a list of axes: only the shape / axis validity (shape_roll) is covered; the index variant (loop over the axes, normalize_roll_length) exceeded the solver budget (observed natively, not under contract: repeated axes do not accumulate, shape=(5) shift=(1,1) axis=(0,0) idx=(0) -> 4, NumPy 3); the axis=None index variant of index::roll is not used by view::roll (flatten + axis 0)',
         'compile-time-constant, fixed-size (std::array) and dynamic (std::vector) index containers; ranks above 8',
         'extents beyond the magnitude assumptions (int index arithmetic of roll / diagonal / tri*, float-free resize products >= 2^64)',
@@ -53,8 +55,8 @@ UNITS = [
     Unit('repeat.uf', 'c04', 'verif_repeat', mode='uf', unwind=10, unwind_loops=HN, clause='repeat: source index'),
     Unit('shape_repeat_each.bp', 'c04', 'verif_shape_repeat_each', mode='bp', unwind=10, unwind_loops=HN, clause='repeat (per-element repeats): shape[axis] = sum(repeats)'),
     Unit('repeat_each.bp', 'c04', 'verif_repeat_each', mode='bp', unwind=10, unwind_loops=HN, object_bits=12, clause='repeat (per-element repeats): source index = the position j with cumsum[j-1] <= i < cumsum[j]'),
-    Unit('repeat_each.bounded', 'c04', 'verif_repeat_each', mode='bp', plain=True, unwind=10, unwind_loops={'.': 9}, object_bits=12, timeout=900,
-         bounded='rank <= 8, repeats arrays of length <= 8 (utl::static_vector<size_t,8>): every loop unwound to its capacity bound; same contract as repeat_each.bp, independent of how the search along the axis is coded',
+    Unit('repeat_each.bounded', 'c04', 'verif_repeat_each_b', mode='bp', plain=True, unwind=10, unwind_loops={'.': 6}, object_bits=12, timeout=900,
+         bounded='rank <= 4, repeats arrays of length <= 5: every loop unwound; same contract as repeat_each.bp, independent of how the search along the axis is coded',
          clause='repeat (per-element repeats): source index = the position j with cumsum[j-1] <= i < cumsum[j]'),
     Unit('shape_take.bp', 'c04', 'verif_shape_take', mode='bp', unwind=10, unwind_loops=HN, clause='take: shape'),
     Unit('take.bp', 'c04', 'verif_take', mode='bp', unwind=10, unwind_loops=HN, clause='take: source index (incl. negative entries of the index list)'),
